@@ -264,7 +264,7 @@ class PulserData:
 
         self.full_interaction_matrix = None
         if config.interaction_matrix is not None:
-            assert len(config.interaction_matrix) == self.qubit_count, (
+            assert config.interaction_matrix.shape[-1] == self.qubit_count, (
                 "The number of qubits in the register should be the same as the size of "
                 "the interaction matrix"
             )
@@ -282,6 +282,11 @@ class PulserData:
                 if self.full_interaction_matrix is not None
                 else samples.trajectory.interaction_matrix.as_tensor()
             )
+
+            if full_interaction_matrix.dim() == 3:
+                # pulser-core >= 1.9 packs the matrix as (1, N, N),
+                # or (2, N, N) in XY mode where the C3 term comes first
+                full_interaction_matrix = full_interaction_matrix[0]
 
             full_interaction_matrix = full_interaction_matrix.clone()
 
